@@ -23,6 +23,19 @@ Definition as_prim (i : finfo) (a : tfval) : option (bool * bool * prim) :=
   | _ => None
   end.
 
+(* allocateEmbedded: if obj.<Embedded> == nil { obj.<Embedded> = &Embedded{} } *)
+Definition alloc_parent (i : finfo) (obj : goval) : res goval :=
+  match fi_parent i with
+  | None => Ok obj
+  | Some (pn, pzero) =>
+      do pv <- gfield obj pn;
+      match pv with
+      | GPtr None => gset obj pn (GPtr (Some pzero))
+      | GPtr (Some _) => Ok obj
+      | _ => Panic
+      end
+  end.
+
 Section CopyFrom.
   Variable hook_from : hook_from_t.
 
@@ -31,7 +44,19 @@ Section CopyFrom.
     match m with
     | Msg _ fs os _ _ _ =>
         (* obj.<OneOf> = nil for the message's own oneofs *)
-        do obj0 <- fold_left (fun acc h => do o <- acc; gset o h (GOneof None)) os (Ok (fst st));
+        do obj000 <- fold_left (fun acc h => do o <- acc; gset o h (GOneof None)) os (Ok (fst st));
+        (* ... and for the oneofs promoted from by-value embedded messages *)
+        do obj00 <- fold_left (fun acc f => do o <- acc;
+                                            match fi_oneof (f_info f), fi_parent (f_info f) with
+                                            | Some h, None => gset o h (GOneof None)
+                                            | _, _ => Ok o
+                                            end) fs (Ok obj000);
+        (* obj.<Embedded> = nil for every nullable embedded message the fields are promoted from *)
+        do obj0 <- fold_left (fun acc f => do o <- acc;
+                                           match fi_parent (f_info f) with
+                                           | Some (pn, _) => gset o pn (GPtr None)
+                                           | None => Ok o
+                                           end) fs (Ok obj00);
         (fix go (l : list field) (st : fstate) {struct l} : res fstate :=
            match l with
            | [] => Ok st
@@ -57,7 +82,8 @@ Section CopyFrom.
           match a with
           | VObj _ n u at0 =>
               if known n u then
-                do '(v, ds') <- decode m' at0 ds;
+                (* a message without fields has nothing to read *)
+                do '(v, ds') <- (if m_empty m' then Ok (m_zero m', ds) else decode m' at0 ds);
                 Ok (Some (if fi_nullable i then GPtr (Some v) else v), ds')
               else Ok (Some (if fi_nullable i then GPtr None else m_zero m'), ds)
           | _ => Ok (None, diag_append ds (ReadConv, path))
@@ -86,18 +112,14 @@ Section CopyFrom.
                         match fi_oneof i with
                         | Some h =>
                             if known n u then
-                              do obj' <- gset_via obj via h (GOneof (Some (name, t))); Ok (obj', ds)
+                              do obj1 <- alloc_parent i obj;
+                              do obj' <- gset_via obj1 via h (GOneof (Some (name, t))); Ok (obj', ds)
                             else Ok (obj, ds)
                         | None =>
                             match fi_parent i with
-                            | Some (pn, pzero) =>
+                            | Some _ =>
                                 if known n u then
-                                  do pv <- gfield obj pn;
-                                  do obj1 <- (match pv with
-                                              | GPtr None => gset obj pn (GPtr (Some pzero))
-                                              | GPtr (Some _) => Ok obj
-                                              | _ => Panic
-                                              end);
+                                  do obj1 <- alloc_parent i obj;
                                   do obj' <- gset_via obj1 via name t; Ok (obj', ds)
                                 else Ok (obj, ds)
                             | None => do obj' <- gset_via obj via name t; Ok (obj', ds)
@@ -109,16 +131,23 @@ Section CopyFrom.
                     | VObj _ n u at0 =>
                         match fi_oneof i with
                         | None =>
-                            do obj1 <- gset_via obj via name (if fi_nullable i then GPtr None else m_zero m');
-                            if known n u && negb (m_empty m') then
-                              do '(v, ds') <- decode m' at0 ds;
-                              do obj' <- gset_via obj1 via name (if fi_nullable i then GPtr (Some v) else v);
+                            (* a field promoted from a nullable embedded message is not reset here *)
+                            do obj1 <- (match fi_parent i with
+                                        | Some _ => Ok obj
+                                        | None => gset_via obj via name (if fi_nullable i then GPtr None else m_zero m')
+                                        end);
+                            if known n u then
+                              do obj2 <- alloc_parent i obj1;
+                              (* a message without fields has nothing to read, but a nullable one is allocated *)
+                              do '(v, ds') <- (if m_empty m' then Ok (m_zero m', ds) else decode m' at0 ds);
+                              do obj' <- gset_via obj2 via name (if fi_nullable i then GPtr (Some v) else v);
                               Ok (obj', ds')
                             else Ok (obj1, ds)
                         | Some h =>
                             if known n u then
+                              do obj1 <- alloc_parent i obj;
                               do '(v, ds') <- (if m_empty m' then Ok (m_zero m', ds) else decode m' at0 ds);
-                              do obj' <- gset_via obj via h (GOneof (Some (name, GPtr (Some v))));
+                              do obj' <- gset_via obj1 via h (GOneof (Some (name, GPtr (Some v))));
                               Ok (obj', ds')
                             else Ok (obj, ds)
                         end
@@ -143,10 +172,15 @@ Section CopyFrom.
                                                             end);
                                           Ok (vs ++ [match ov with Some v => v | None => zero_elem end], ds2))
                                        l (Ok ([], ds))
-                           else Ok (repeat zero_elem (List.length l), ds));
+                           else Ok ([], ds));
                         let '(vs, ds') := r in
-                        do obj' <- gset_via obj via name (GSlice (Some vs));
-                        Ok (obj', ds')
+                        match fi_parent i, known n u with
+                        | Some _, false => Ok (obj, ds')
+                        | _, _ =>
+                            do obj1 <- alloc_parent i obj;
+                            do obj' <- gset_via obj1 via name (GSlice (Some vs));
+                            Ok (obj', ds')
+                        end
                     | _ => Ok (obj, diag_append ds (ReadConv, path))
                     end
                 | PrimitiveMapKind, _ | ObjectMapKind, _ =>
@@ -165,8 +199,13 @@ Section CopyFrom.
                                        l (Ok ([], ds))
                            else Ok ([], ds));
                         let '(es, ds') := r in
-                        do obj' <- gset_via obj via name (GMap (Some es));
-                        Ok (obj', ds')
+                        match fi_parent i, known n u with
+                        | Some _, false => Ok (obj, ds')
+                        | _, _ =>
+                            do obj1 <- alloc_parent i obj;
+                            do obj' <- gset_via obj1 via name (GMap (Some es));
+                            Ok (obj', ds')
+                        end
                     | _ => Ok (obj, diag_append ds (ReadConv, path))
                     end
                 | _, _ => Panic
